@@ -30,8 +30,10 @@
 // srv names: s in 0..512 -> "localhost" with the letters of the set bits upper-cased (the
 //   certificate matches case-insensitively, the spawner compares the strings exactly); in the
 //   output 20000 + s, except s = 0 which IS the string "localhost" = name 9000
-// output: per T:  <connections accepted> <n> (<id> <name>)*n <complete> [srv = 1: <|known_resolutions|>]
-//         per R: <complete>        at the end: <|current_sources|> (<id> <name>)* <same_addr>
+// output: per T:  <connections accepted> <n> (<id> <name> <address>)*n <complete> [srv = 1: <|known_resolutions|>]
+//         per R: <complete>        at the end: <|current_sources|> (<id> <name> <address>)* <same_addr>
+//   address = (address identifier of the ip: 9000 for 127.0.0.1, k for 127.1.(k/256).(k%256)) * 65536 + port,
+//   taken from the SpawnEvent
 //   same_addr (an observation, not compared with the model): 1 when after some try_spawn two of
 //   the current sources had the same socket address (under different remote names)
 // ids are renumbered 0,1,2.. in the order of creation within the case.
@@ -88,6 +90,11 @@ fn closed_port(rt: &tokio::runtime::Runtime) -> u16 {
 // the address identifier (see id_of_ip) of the server named k: "localhost" and "127.0.0.1" are the same address
 fn addr_id(k: u64) -> i64 {
     if k == 9001 { 9000 } else { k as i64 }
+}
+
+// one number for a socket address: address identifier and port
+fn addr_code(a: SocketAddr) -> i64 {
+    id_of_ip(a.ip()) * 65536 + a.port() as i64
 }
 
 fn srv_key(s: u64) -> i64 {
@@ -411,7 +418,7 @@ fn run_case(t: &[&str], rt: &tokio::runtime::Runtime, servers: &mut Servers) -> 
                     ids.push(params.id);
                     addrs.push(params.addr);
                     n += 1;
-                    evs.push(format!("{} {}", ids.len() - 1, name));
+                    evs.push(format!("{} {} {}", ids.len() - 1, name, addr_code(params.addr)));
                 }
                 out.push(format!("{}", conns.get()));
                 out.push(format!("{}", n));
@@ -442,7 +449,10 @@ fn run_case(t: &[&str], rt: &tokio::runtime::Runtime, servers: &mut Servers) -> 
     }
     out.push(format!("{}", pool.current_sources.len()));
     for s in &pool.current_sources {
-        out.push(format!("{} {}", idx(&ids, s.id), id_of_remote(&s.remote)));
+        let i = idx(&ids, s.id);
+        // the address the source was created for (the spawner's own copy of it exists on repaired trees only)
+        let a = if i >= 0 { addr_code(addrs[i as usize]) } else { -1 };
+        out.push(format!("{} {} {}", i, id_of_remote(&s.remote), a));
     }
     out.push(format!("{}", same_addr));
     out.join(" ")
